@@ -89,7 +89,10 @@ def board_api(facts):
     names = board_methods(facts)
     new_mut = [n for n in names if base and n not in base and facts.fns[n].kind != 'Closure' and not facts.fns[n].derived
                and facts.fns[n].arg_count >= 1 and facts.fns[n].local_ty(1) == '&mut ' + BOARD]
-    opaque = set(names) - set(new_mut)
+    # a new associated function without a Board receiver (a pure table look-up kept in `impl Board`) cannot touch a board: looked into as well
+    new_pure = [n for n in names if base and n not in base and facts.fns[n].kind != 'Closure' and not facts.fns[n].derived
+                and not any('chess::board::Board' in facts.fns[n].local_ty(i_) for i_ in range(1, facts.fns[n].arg_count + 1))]
+    opaque = set(names) - set(new_mut) - set(new_pure)
     alias = {}
     if new_mut:
         # the hash bookkeeping below Board is C05's business: kept as plain calls
@@ -120,7 +123,7 @@ def is_err_result(v):
     return v is not None and v[0] == 'agg' and v[3] == 'Err'
 
 
-def kind_summaries(ctx, which, fold_helpers=True, extra_opaque=()):
+def kind_summaries(ctx, which, fold_helpers=True, extra_opaque=(), unroll=False, only=None):
     """Outcomes of <kind>::apply / ::undo with the Board API opaque (effect summaries, A5)."""
     facts = ctx.facts
     fo = set(DEFAULT_FOLD_ONLY)
@@ -128,10 +131,12 @@ def kind_summaries(ctx, which, fold_helpers=True, extra_opaque=()):
         fo |= set(STD_HELPERS)
     out = {}
     for k, path in KINDS.items():
+        if only is not None and k not in only:
+            continue
         name = path + '::' + which
         ctx.touch(name)
         opq, alias = board_api(facts)
-        eng = Engine(facts, opaque=opq | set(extra_opaque), fold_only=fo, call_alias=alias, max_paths=20000 if alias else 4096)
+        eng = Engine(facts, opaque=opq | set(extra_opaque), fold_only=fo, call_alias=alias, max_paths=20000 if (alias or unroll) else 4096, unroll=unroll)
         out[k] = (name, eng.run(name))
     return out
 
